@@ -669,12 +669,27 @@ def r09h(ctx):
     F = ctx.F
     from .core import as_comparison
 
-    def all_ones(e):
+    def all_ones(e, named_ok=True):
         # [!0u64; 4] (possibly through .into()/From): every element is the bitwise complement of 0 / u64::MAX
         while e[0] == 'call' and sg(e[1]).split('::')[-1] in ('into', 'from') and len(e[2]) == 1:
             e = e[2][0]
+        while e[0] in ('ref', 'cast') or (e[0] == 'call' and sg(e[1]).split('::')[-1] in ('deref', 'as_ref', 'borrow') and len(e[2]) == 1):
+            e = e[1] if e[0] != 'call' else e[2][0]
         if e[0] == 'agg' and e[1] in ('repeat', 'array') and e[3]:
             return all((c[0] == 'un' and c[1] == 'Not' and c[2][:2] == ('const', 0)) or (c[0] == 'const' and c[1] == 0xFFFFFFFFFFFFFFFF) for (_, c) in e[3])
+        if e[0] == 'item' and named_ok:
+            # a named / promoted constant the extractor does not evaluate: accepted as "a compile-time constant" (the
+            # structural clause — full-width equality with one constant — holds; that the writer uses the same
+            # value is then checked only as far as it names a constant too)
+            return True
+        if e[0] == 'item':
+            # a named constant: its evaluated value (the extractor dumps the bytes)
+            c = F.consts.get(e[1].split('#')[0])
+            v = ''.join(ch for ch in str((c or {}).get('v', '')).lower() if ch in '0123456789abcdef')
+            if c is not None and ('u64; 4' in c.get('ty', '') or 'Hash' in c.get('ty', '')) and len(v) >= 64 and set(v) == {'f'}:
+                return True
+            if c is not None and str(c.get('v', '')).replace(' ', '').strip('[]').split(',') == ['18446744073709551615'] * 4:
+                return True
         return False
 
     for ty, fld in ((FS + 'FileDataSequenceHeader', 'file_hash'), (CS + 'CASChunkSequenceHeader', 'cas_hash')):
@@ -686,6 +701,8 @@ def r09h(ctx):
             if c is not None and c[0] == 'Eq':
                 l, r = c[1], c[2]
                 for (x, y) in ((l, r), (r, l)):
+                    while x[0] in ('ref', 'cast') or (x[0] == 'call' and sg(x[1]).split('::')[-1] in ('deref', 'as_ref') and len(x[2]) == 1):
+                        x = x[1] if x[0] != 'call' else x[2][0]
                     if x[0] == 'field' and x[2] == fld and x[1][0] == 'param' and all_ones(y):
                         ok = True
         if not ok and len(rets) == 1:
@@ -706,4 +723,14 @@ def r09h(ctx):
         b = an(F.body(ty + '::bookend'))
         okb = any(all_ones(z) for bb in sorted(b.cfg.reach0) for st in b.blocks[bb]['s'] if st.get('r') for z in flow.subtrees(b.flow.rvalue(st['r'], 0))) or \
             any(all_ones(z) for (_, _, _, e) in b.ret_sites() for z in flow.subtrees(e))
+        if not okb:
+            # filled word by word: `for w in h.iter_mut() { *w = u64::MAX }`
+            from . import loops as L
+            for bb in sorted(b.cfg.reach0):
+                for st in b.blocks[bb]['s']:
+                    d_, r_ = st.get('d'), st.get('r')
+                    if d_ and d_.get('p') and d_['p'][0] == '*' and r_ and r_['k'] == 'use' and b.flow.expr(r_['a']) in (('const', 0xFFFFFFFFFFFFFFFF, 'u64'),) and c05.loop_of(b, bb) is not None:
+                        lp_ = c05.loop_of(b, bb)
+                        if L.every_iteration_passes(b, lp_, bb) and any(sg(b.term(c_).get('fn', '')).split('::')[-1] == 'iter_mut' for c_ in b.calls()):
+                            okb = True
         ctx.check(okb, 'R09h', ty + '::bookend', 'constant', '-', 'the bookend constructor writes the all-ones hash')
